@@ -48,11 +48,18 @@ def run_patch(patch, govc, claimed, allp):
         for f in ['contracts', 'properties.map.json', 'known_findings.json']:
             src = os.path.join('/verif', f)
             (shutil.copytree if os.path.isdir(src) else shutil.copy)(src, os.path.join(vd, f))
-        for p in relevant(patch, claimed, allp):
-            rc, out = sh([govc, '-property', p, '-tier', 'quick', '-verif', vd, '-repo', wt])
-            failed = [l.strip()[:260] for l in out.splitlines() if l.strip().startswith('failed obligation') or l.strip().startswith('translate failure')]
-            res[p] = {'exit': rc, 'first': failed[:4]}
-            if rc not in (0, 1): res[p]['tail'] = out[-600:]
+        # one run over the union of the functions of all claimed properties; a failure is attributed to every
+        # property whose map entry covers the function (govc -multi)
+        rc, out = sh([govc, '-multi', ','.join(claimed), '-verif', vd, '-repo', wt])
+        got = False
+        for l in out.splitlines():
+            m = re.match(r'MULTI (C\d\d) violations=(\d+) ?(.*)', l)
+            if m:
+                got = True
+                n = int(m.group(2))
+                res[m.group(1)] = {'exit': 1 if n else 0, 'first': [m.group(3)[:300]] if n else []}
+        if not got:
+            res['run'] = {'exit': rc if rc else 2, 'tail': out[-600:]}
     finally:
         sh(['git', '-C', '/repo', 'worktree', 'remove', '--force', wt])
         shutil.rmtree(wt, ignore_errors=True); shutil.rmtree(vd, ignore_errors=True)
